@@ -53,8 +53,10 @@ pub fn generate(s: &mut Session, tier: &str, rng: &mut Rng) {
                 }
             }
             // the application sends and closes at once: everything it wrote still reaches the target, then the end
-            for kind in KINDS {
-                let op = format!("e2e.tcp {} kind={} host=127.0.0.1 up={} down=10 seed={} close=app-early", w, kind, sizes(rng, max_total), rng.below(1 << 40));
+            for (ki, kind) in KINDS.iter().enumerate() {
+                // (one of the three far larger than what the server can have consumed by the time the application has closed)
+                let up = if ki == 0 { format!("{}", 150_000 + rng.below(300_000)) } else { sizes(rng, max_total) };
+                let op = format!("e2e.tcp {} kind={} host=127.0.0.1 up={} down=10 seed={} close=app-early", w, kind, up, rng.below(1 << 40));
                 let r = s.run(&op);
                 if field(&r, "up") != "ok" || field(&r, "target-eof") != "1" {
                     s.oracle_fail(&format!("early-close:{}", cfg.label()), &format!("{}: the application wrote and closed at once; its bytes did not all reach the target before the end: `{}`", op, r));
